@@ -381,4 +381,7 @@ var spec = run.Spec[Case]{ID: "C20", Name: "rdp", Gen: genCase, Prop: prop, Clas
 
 func TestPropRDP(t *testing.T) { run.Generated(t, spec) }
 func TestRegress(t *testing.T) { run.Regress(t, spec) }
-func TestReplay(t *testing.T)  { run.ReplayOne(t, spec) }
+func TestReplay(t *testing.T) {
+	run.ReplayOne(t, spec)
+	run.ReplayOne(t, sweepSpec)
+}
